@@ -1,6 +1,7 @@
 package keeper
 
 import (
+	sdkmath "cosmossdk.io/math"
 	"math/big"
 	"time"
 
@@ -125,12 +126,43 @@ func csBounds(buy bool, sold, bought, inAmt, outAmt *big.Int) {
 // C02: double-hop order (neither side is the standard coin): the intermediate
 // standard coin must net to zero for sender and recipient.
 func VerifC02_SwapDouble() {
+	csDoubleHop(false)
+}
+
+// The same order over pools of a few fixed SHAPES (balanced, strongly imbalanced either way, tiny) under
+// the default fee, with the order amounts symbolic: divisions are then by constants, so the relations the
+// fully symbolic harness leaves to nonlinear reasoning (e.g. re-pricing the rounded-up first hop) are
+// decided quickly.  A finite case split over reserves, not a proof over all reserves.
+func VerifC02_SwapDoubleShapes() { csDoubleHop(true) }
+
+func csDoubleHop(shapes bool) {
 	verifExpect("accepted", "rejected")
-	e := newCsEnv(true)
 	one, zero := big.NewInt(1), big.NewInt(0)
 	w := verifPow2(40)
-	p1 := e.seedPool("btc", verifIntIn("S1", one, w), verifIntIn("T1", one, w), verifIntIn("L1", one, w))
-	p2 := e.seedPool("eth", verifIntIn("S2", one, w), verifIntIn("T2", one, w), verifIntIn("L2", one, w))
+	var e *csEnv
+	var p1, p2 types.Pool
+	if shapes {
+		e = newCsEnv(false)
+		shape := func(n string) (sdkmath.Int, sdkmath.Int) {
+			switch verifChoice(n, 4) {
+			case 1:
+				return sdkmath.NewInt(1000000), sdkmath.NewInt(1000)
+			case 2:
+				return sdkmath.NewInt(1000), sdkmath.NewInt(1000000)
+			case 3:
+				return sdkmath.NewInt(7), sdkmath.NewInt(3)
+			}
+			return sdkmath.NewInt(1000), sdkmath.NewInt(1000)
+		}
+		s1, t1 := shape("shape1")
+		s2, t2 := shape("shape2")
+		p1 = e.seedPool("btc", s1, t1, sdkmath.NewInt(1000))
+		p2 = e.seedPool("eth", s2, t2, sdkmath.NewInt(1000))
+	} else {
+		e = newCsEnv(true)
+		p1 = e.seedPool("btc", verifIntIn("S1", one, w), verifIntIn("T1", one, w), verifIntIn("L1", one, w))
+		p2 = e.seedPool("eth", verifIntIn("S2", one, w), verifIntIn("T2", one, w), verifIntIn("L2", one, w))
+	}
 	a1, a2 := types.GetReservePoolAddr(p1.LptDenom), types.GetReservePoolAddr(p2.LptDenom)
 	buy := verifChoice("buy", 2) == 1
 	sameRecipient := verifChoice("recipient", 2) == 0
